@@ -2,7 +2,8 @@
 From Coq Require Import ZArith NArith List Bool String Reals.
 From Flocq Require Import Raux.
 From Alator Require Import Model.Num Model.Quirks Model.Cost Model.Exchange Model.Uist Model.Server Model.Broker
-  Model.Strategy Model.BrokerSys Proofs.ServerProofs Proofs.ExchangeProofs Proofs.BrokerLedgerProofs Proofs.EndToEnd05.
+  Model.Strategy Model.BrokerSys Proofs.ServerProofs Proofs.ExchangeProofs Proofs.BrokerLedgerProofs Proofs.EndToEnd05
+  Proofs.EndToEnd04.
 Import ListNotations.
 Local Existing Instance RNum.
 
@@ -34,6 +35,42 @@ Theorem c05s_pending_from_fresh :
          (outstanding y' = [] -> b_pending (bs_brkr y') = []).
 Proof. exact @c05_pending_from_fresh. Qed.
 
+(* First sentence, END TO END: from a fresh start, after every history the broker's trade log IS the exchange's own trade log of its backtest — exactly those trades, in execution order. *)
+Theorem c05s_log_is_exchange_log :
+  forall (a : uapp) (id : N) (b : backtest (uexch R)) (d : dataset (quotes (quote R)))
+           (brk : broker R) (ops : list (bsop R)) (y' : bsys R),
+         SInv a ->
+         nlookup (backtests a) id = Some b ->
+         slookup (datasets a) (bt_dataset b) = Some d ->
+         clock_ok d b 0 ->
+         bt_exch b = exch_init ->
+         rows_total d ->
+         b_log brk = [] ->
+         bs_run clean {| bs_brkr := brk; bs_app := a; bs_id := id |} ops = Ok y' ->
+         exists b' : backtest (uexch R),
+           nlookup (backtests (bs_app y')) (bs_id y') = Some b' /\
+           b_log (bs_brkr y') = xlog (bt_exch b').
+Proof. exact @c05_log_is_exchange_log. Qed.
+
+(* … and holdings per symbol equal bought minus sold over the trades the exchange executed (its own log), no zero entry, keys unique. *)
+Theorem c05s_holdings_from_exchange_log :
+  forall (a : uapp) (id : N) (b : backtest (uexch R)) (d : dataset (quotes (quote R)))
+           (brk : broker R) (ops : list (bsop R)) (y' : bsys R),
+         SInv a ->
+         nlookup (backtests a) id = Some b ->
+         slookup (datasets a) (bt_dataset b) = Some d ->
+         clock_ok d b 0 ->
+         bt_exch b = exch_init ->
+         rows_total d ->
+         b_holdings brk = [] ->
+         bs_run clean {| bs_brkr := brk; bs_app := a; bs_id := id |} ops = Ok y' ->
+         exists b' : backtest (uexch R),
+           nlookup (backtests (bs_app y')) (bs_id y') = Some b' /\
+           (forall s : string,
+            hget (b_holdings (bs_brkr y')) s = sumR (signed_qty s) (xlog (bt_exch b'))) /\
+           no_zero (b_holdings (bs_brkr y')) /\ keys_nodup (b_holdings (bs_brkr y')).
+Proof. exact @c05_holdings_from_exchange_log. Qed.
+
 (* holdings-with-pending is holdings plus that signed quantity, and just the holdings for a symbol with nothing outstanding. *)
 Theorem c05s_with_pending :
   forall (y : bsys R) (s : string),
@@ -54,4 +91,6 @@ Proof. exact @c05_with_pending_end_to_end. Qed.
 Print Assumptions c05s_step.
 Print Assumptions c05s_pending_end_to_end.
 Print Assumptions c05s_pending_from_fresh.
+Print Assumptions c05s_log_is_exchange_log.
+Print Assumptions c05s_holdings_from_exchange_log.
 Print Assumptions c05s_with_pending.
